@@ -18,3 +18,5 @@ def run(chk, tier):
     F = load(chk, 'std')
     E.eval_table(chk, F, 'R05.6', 'std')
     E.lazy_rendering(chk, F, 'R05.7', 'std')
+    from props import c08
+    c08.eval_wiring(chk, F, 'R05.8', 'std')
